@@ -40,9 +40,46 @@ LEVEL = {
             "fresh array as reference; string keys are not in the error table (repository declares invalid index types unsupported)"),
 }
 
-DESIGN_REF = {p: f"DESIGN.md section 3, {p}" for p in LEVEL}
 
-NOT_YET = {
+LEVEL.update({
+    "C04": ("exploration", "runtime monitor on the real coordinate indexer: exact C01 oracle mask by position + index-free differential + exact extent for omitted/reversed ends",
+            "cx on arrays, GeoSeries and GeoDataFrames (default/named/string/non-unique/shuffled index, extra columns) with index never built or built with p in {1,10,20} x page_size in {1,2,3,4,7,64,512}; rows must come back in order with labels and other columns untouched; the covered-rows shortcut is a required situation.",
+            "exactness domain as C01; boxes of positive width and height"),
+    "C05": ("exploration", "runtime monitor: nested-loop reference join with the exact C02 oracle, results compared as multisets of complete rows",
+            "sjoin (pandas x pandas) for inner/left/right, right frames of six kinds with overlapping shapes, duplicate and missing points, missing shapes, empty sides, clashing column names, four index kinds, three suffix pairs.",
+            "row and column order not compared; numeric values compared as floats; boundary pairs are don't-care"),
+    "C06": ("exploration", "runtime monitor: client-boundary differential of every Dask operation against the pandas twin (rows matched by unique ids)",
+            "eight provenances x 1..8 partitions (empty, all-missing, fully covered partitions) x cx / cx_partitions / bounds / total_bounds / area / length / intersects_bounds / sjoin inner+left; ordered comparison, multiset for sjoin, whole-partition containment for cx_partitions.",
+            "pandas operations decided by C01-C05/C13/C14; synchronous scheduler"),
+    "C09": ("exploration", "runtime monitor: conservation over unique row ids + Hilbert index recomputed on the pandas twin + sortedness + partition count, from two input partitionings",
+            "pack_partitions on frames of every kind with missing/duplicate geometries, 1-5 input partitions incl. pre-sorted and filtered (empty) ones, npartitions 1..12, p in {1,2,6,10,15,20}.",
+            "a raising call claims nothing; all-raised run is inconclusive"),
+    "C10": ("exploration", "runtime monitor: final-state scan of the sandbox + conservation over the recording filesystem's event log + row/order model on three independent read-backs",
+            "pack_partitions_to_parquet for npartitions 1..16 (every pattern of empty outputs), three tempdir modes, three compressions, overwrite over a larger / smaller previous dataset; the dataset listing must be exactly parts + metadata files, nothing else anywhere.",
+            "flat tempdir formats with pre-existing parent; synchronous scheduler; strace recorder not used in the registered tiers"),
+    "C11": ("exploration", "runtime monitor: round-trip ledger (deep snapshot at write time compared at read time, projection/concatenation applied to the snapshot)",
+            "pandas and Dask routes, 7 kinds x 5 subtypes, unconstrained elements incl. NaN/inf/empty/missing, sliced/concatenated/taken arrays, six index kinds, three compressions, 1..13 partitions, projections in arbitrary order, list and glob of two datasets, plus a probe for value-equal frames of different subtype.",
+            "Dask route compared with ddf.compute() before writing"),
+    "C12": ("exploration", "runtime monitor: stored bounds read at three observation points vs extents recomputed from the loaded partitions; exact prune-set and no-row-lost oracle",
+            "datasets written by Dask to_parquet and pack_partitions_to_parquet with 1..16 partitions, two geometry columns, geometry= choices, list/glob of two datasets, boxes touching an extent exactly / reversed / disjoint / covering.",
+            "NaN recorded extents: only the no-row-lost clause"),
+    "C17": ("exploration", "runtime monitor: paired execution on F and F + inert rows, results aligned through row positions / ids (metamorphic, arbitrary floats)",
+            "all kinds; inert forms {missing, every empty form, all-NaN}; placements first/last/page-sized block/whole Dask partition/scattered/all rows; bounds, total_bounds, measures, predicates, R-tree, cx with/without index, sjoin (inert on either side), hilbert_distance, Dask cx/total_bounds/pack_partitions; hostile null slots for points.",
+            "inert rows may be uncovered R-tree candidates"),
+    "C18": ("exploration", "runtime monitor: schedule perturbation (dask scheduler x workers x numba threads x 1us switch interval x sys.monitoring yield injection x delay-injecting filesystem) + result-determinism oracle + offline fs-trace checker",
+            "every listed operation under each configuration vs the serial single-thread reference; N client threads on one shared array / R-tree / frame / Dask series incl. first access; concurrent pack_partitions_to_parquet calls; evidence reports distinct interleavings observed.",
+            "no race detector understands numba prange or CPython attribute caches: races that never change a result, raise or touch a file in the runs produced are invisible"),
+    "C19": ("fault_enumeration", "fault enumeration: every outermost filesystem call position x {OSError, FileNotFoundError, half-written file, stale listing} x repetition counts, golden-snapshot oracle, recovery run",
+            "thorough: exhaustive single faults for four configurations (temp dir inside/outside x with/without empty outputs), all kinds and repetition counts, sampled pairs; quick: seeded stride-3 sample. Completed runs must equal the golden sandbox; raised runs must recover with overwrite=True.",
+            "synchronous scheduler with deterministic uuids so that position k names the same operation; existence-check flips are reported only"),
+    "C20": ("exploration", "runtime monitor: frame-state model (expected active geometry, expected type) advanced through replayable operation histories + single-geometry twin for spatial operations, pandas and every Dask partition",
+            "frames with 3-4 geometry columns (active neither first nor named 'geometry', optional decoy column named 'geometry'); 16 operations incl. concat, Dask compute, parquet re-read with geometry=<any>; cx / sjoin / pack_partitions / partition bounds must use the active column.",
+            "subset dropping the active column re-synchronises the model (not constrained by the statement)"),
+})
+DESIGN_REF = {p: f"DESIGN.md section 3, {p}" for p in LEVEL}
+NOT_YET = {}
+
+_OLD_NOT_YET = {
     "C04": "check under construction in this session (cx with/without index); not claimed until it has been run silent on the unchanged tree",
     "C05": "check under construction (reference nested-loop join); not claimed yet",
     "C06": "check under construction (Dask vs pandas differential); not claimed yet",
